@@ -2,6 +2,7 @@ package raft
 
 import (
 	"context";
+	"strconv";
 
 	pb "github.com/marekgalovic/anndb/protobuf";
 
@@ -60,10 +61,46 @@ func (this *sharedGroup) processSnapshot(data []byte) error {
 	}
 
 	for proxyName, proxySnapshot := range snapshot.GetProxySnapshots() {
-		proxy := this.proxies[proxyName]
+		if proxyName == nodesSnapshotKey {
+			if err := this.processNodesSnapshot(proxySnapshot); err != nil {
+				return err
+			}
+			continue
+		}
+		proxy, exists := this.proxies[proxyName]
+		if !exists || proxy.processSnapshotFn == nil {
+			continue
+		}
 		if err := proxy.processSnapshotFn(proxySnapshot); err != nil {
 			return err
 		}
+	}
+	return nil
+}
+
+// Addresses of the cluster members. They are announced in membership entries of
+// the log only, so they have to be a part of the snapshot that replaces the log.
+const nodesSnapshotKey string = "__nodes"
+
+func (this *sharedGroup) nodesSnapshot() ([]byte, error) {
+	nodes := make(map[string][]byte)
+	for id, address := range this.group.transport.clusterConn.Nodes() {
+		nodes[strconv.FormatUint(id, 10)] = []byte(address)
+	}
+	return proto.Marshal(&pb.SharedGroupSnapshot{ProxySnapshots: nodes})
+}
+
+func (this *sharedGroup) processNodesSnapshot(data []byte) error {
+	var nodes pb.SharedGroupSnapshot
+	if err := proto.Unmarshal(data, &nodes); err != nil {
+		return err
+	}
+	for idStr, address := range nodes.GetProxySnapshots() {
+		id, err := strconv.ParseUint(idStr, 10, 64)
+		if err != nil {
+			return err
+		}
+		this.group.transport.addNodeAddress(id, string(address))
 	}
 	return nil
 }
@@ -78,6 +115,11 @@ func (this *sharedGroup) snapshot() ([]byte, error) {
 				return nil, err
 			}
 		}
+	}
+
+	proxySnapshots[nodesSnapshotKey], err = this.nodesSnapshot()
+	if err != nil {
+		return nil, err
 	}
 
 	return proto.Marshal(&pb.SharedGroupSnapshot{ProxySnapshots: proxySnapshots})
